@@ -23,7 +23,7 @@ PROPS = {
         units=['expert', 'nodepred', 'edges', 'steps'], level='proof',
         replays=['c14_invalid_dep_removed.rs', 'c14_callback_on_new_dependency.rs', 'c14_callback_on_valueless_child.rs'],
         uncovered=[
-            'state_add_parent and the callers of remove_parent in node.rs (multi-node; opaque callees with call-site obligations); expert_swap_children_except_in_kind is under contract in unit `edges` (C11)',
+            'state_add_parent, remove_parent, check_if_unnecessary as reached from the expert paths are opaque callees with call-site obligations (receiver, index, order); their own bodies are under contract in units heightwalk / edges / nodepred',
             'double-borrow panics on duplicate children (RefCell borrow flags are erased by rule R5)',
             'that every due change callback is delivered (liveness of on_change calls); only the latches that gate them are under contract',
             'equality of the node value with the reference combinator (C01-level)',
@@ -32,8 +32,7 @@ PROPS = {
         units=['observer', 'steps'], level='proof',
         replays=[],
         uncovered=[
-            'the two linking loops add_new_observers / unlink_disallowed_observers beyond the frame obligations',
-            'InternalObserver::run_all body (HashMap::iter_mut): pinned by a frame obligation only',
+            'the iteration of the loops whose bodies are under contract as functions of one item (rule R7h): that every queued observer / handler is visited, once, is pinned only by a non-strict frame (drain) or not at all',
             'that Observer::clone clones the sentinel (derive(Clone)): trusted',
         ]),
     'C09': dict(
@@ -41,7 +40,7 @@ PROPS = {
         replays=['c09_spurious_changed.rs', 'c09_double_unsubscribe.rs', 'c09_state_unsubscribe_before_first_stabilise.rs'],
         uncovered=[
             'that a due callback is actually invoked (liveness); the contracts pin the argument of every call that is made, and the handler state after it',
-            'the delivery loops (Node::run_on_update_handlers, InternalObserver::run_all): frame obligations only',
+            'the iteration of the delivery loops (their per-item bodies are under contract, rule R7h; that every handler is visited is not)',
             'that maybe_change_value sets changed_at exactly when the cutoff does not suppress the new value (see C06)',
         ]),
     'C08': dict(
@@ -83,8 +82,8 @@ PROPS = {
         units=['nodepred', 'observer', 'var', 'heightwalk', 'steps'], level='other',
         replays=[],
         uncovered=[
-            'the became_unnecessary cascade and the cone statement itself',
-            'three recompute_heap.insert sites rely on a debug assertion only (maybe_change_value_manual, state_add_parent, propagate_invalidity)',
+            'the became_unnecessary cascade as a whole and the cone statement itself (per step: who is rechecked / dequeued / linked is under contract)',
+            'two recompute_heap.insert sites rely on a debug assertion only (maybe_change_value_manual, state_add_parent)',
         ]),
 }
 
